@@ -19,7 +19,9 @@ PINNED = ["C19_pratt", "C19_pratt_std", "C19_pow", "C19_int", "C19_classify", "C
           "C19_line", "C19_string_tree", "C19_string_int", "C19_parse_print", "C19_int_literals", "gen_is_expected",
           "C19_fuel_suffices", "C19_fuel_irrelevant", "C19_parse_calc_nofuel", "C19_nocrash_total",
           "C19_render_parse", "C19_render_parse_fuel", "C19_render_line", "C19_render_value", "C19_dec_literal",
-          "C19_is_arithmetic_is_source_regex", "C19_arith_matchers_are_source_regexes"]
+          "C19_is_arithmetic_is_source_regex", "C19_arith_matchers_are_source_regexes",
+          "C19_peg_is_hand_parser", "C19_peg_fuel_suffices", "C19_peg_nofuel", "C19_peg_render_parse",
+          "C19_float_structure", "C19_float_structure_all", "C19_float_literals"]
 TRUSTED = [
     "Coq 8.16.1 kernel (coqc; coqchk in thorough); vm_compute only in Example witnesses and the gen_is_expected pins",
     "hand transcription of tools::is_arithmetic (three matchers written against the regex literals pinned by "
@@ -33,9 +35,11 @@ TRUSTED = [
     "harness/src/bin/c19.rs, drive/c19.py (reference evaluator: python ints; IEEE double = python float)",
 ]
 ASSUMES = [
-    "float mode (a `.` in the line) is NOT modelled numerically: the model yields the parse tree, the driver "
-    "evaluates it with IEEE doubles (python float; + - * / only, powf only where exactly representable) and "
-    "compares the printed value; f64 operations and f64 parsing of a grammar-conforming literal cannot panic",
+    "float mode (a `.` in the line): the STRUCTURE of eval_float is modelled (Model/CalcFloat.v) over an oracle "
+    "record of f64 operations (C19_float_structure: the result is the fold of the oracle over the Pratt tree); the "
+    "f64 operations themselves are not defined in Coq: layer L1_float_bits instantiates the oracle with OCaml "
+    "floats (+. -. *. /. **, float_of_string) and compares bit patterns with the implementation; the printed "
+    "value is checked against Rust Display computed in python; the independent python evaluator stays as oracle",
     "the machine stack is unbounded in the model; stack exhaustion on very deep nesting is a recorded finding "
     "(stack_overflow) observed at L2 only -- C19_nocrash is about panic sites, not about the stack",
     "C19_string_* cover texts in which every token boundary is spelled with the same blank string and whose leaves "
@@ -362,6 +366,8 @@ def run(ctx, res):
                 "and random expression trees (depth <= 5, boundary operands, random blanks and redundant parentheses, "
                 "integer and float mode) against the extracted model and the independent reference evaluator; "
                 "non-trivial = distinct arithmetic line that parses and contains at least one operator. "
+                "L1_float_bits: every float-mode line of L1: the double of run_calculator_f (f64 oracle = OCaml floats) against "
+                "the bit pattern eval_float returns, and run_calculator's string against Display of that double. "
                 "L2: `cicada -c <expr>` and `echo $(<expr>)` against the model"
                 % (" and off" if ctx.thorough else "", maxlen, ALPHA))
     viol = {"n": 0}
@@ -579,6 +585,51 @@ def run(ctx, res):
                             handwritten=a_, generated=g_, failing_input=False,
                             note="the hand-written grammar model the theorems are about differs from the grammar "
                                  "generated from calculator/grammar.pest")
+        # float mode, numerically: run_calculator_f of the model (Model/CalcFloat.v; the f64 oracle
+        # instantiated with OCaml floats in drv.ml) against calculator::eval_float, bit pattern
+        # against bit pattern, on every float-mode line of this layer; and the string
+        # run_calculator printed against Rust's Display of the model's double
+        if pname == "debug":
+            import struct
+            fl_lines, fl_impl = [], {}
+            for (o_, s_), a_, b_ in zip(meta, mo, io):
+                if o_ == "calc" and a_.startswith("float ") and s_ not in fl_impl:
+                    fl_impl[s_] = b_
+                    fl_lines.append(s_)
+            fcases = [C.case("calcf", s_) for s_ in fl_lines]
+            if fcases:
+                fpath = C.write_cases("c19_l1f.txt", fcases)
+                fmo = run_model_par(ctx.model["C19"], "c19_l1f", fcases)
+                fio = C.run_impl(exe, fpath, len(fcases))
+                if len(fmo) != len(fcases):
+                    raise C.Infra("model driver printed %d lines for %d calcf cases" % (len(fmo), len(fcases)))
+                res.count("L1_float_bits", len(fcases))
+                for s_, a_, b_ in zip(fl_lines, fmo, fio):
+                    if a_ != b_:
+                        violate(kind="oracle" if is_crash(b_) else "correspondence", layer="L1", function="calculator::eval_float",
+                                input=s_, model=a_, impl=b_, profile=pname, failing_input=is_crash(b_),
+                                note="float mode: the double eval_float returns differs from the fold of the IEEE "
+                                     "operations over the Pratt tree (run_calculator_f of the model)")
+                        continue
+                    if a_ == "f nan":
+                        shown = "NaN"
+                    elif re.fullmatch(r"f [0-9a-f]{16}", a_):
+                        shown = fmt_f64(struct.unpack(">d", bytes.fromhex(a_[2:]))[0])
+                    else:
+                        violate(kind="correspondence", layer="L1", function="run_calculator_f", input=s_, model=a_, impl=b_,
+                                profile=pname, failing_input=False, note="a float-mode line without a double as its model value")
+                        continue
+                    want = 'ok "%s"' % C.enc(shown)
+                    if fl_impl[s_] != want:
+                        violate(kind="oracle" if is_crash(fl_impl[s_]) else "correspondence", layer="L1",
+                                function="core::run_calculator (float mode)", input=s_, model=a_, expected=want,
+                                impl=fl_impl[s_], profile=pname, failing_input=is_crash(fl_impl[s_]),
+                                note="float mode: run_calculator does not print the double of the model "
+                                     "(shortest round-trip decimal, no exponent)")
+                if fl_lines:
+                    j = len(fl_lines) - 1
+                    res.sample({"layer": "L1_float_bits", "case": fcases[j], "model": fmo[j], "impl": fio[j],
+                                "printed": fl_impl[fl_lines[j]]})
         # random trees: the generating tree is the expected parse (checked through the reference
         # parser, which must give the tree back: guards the generator itself)
         for s, t in zip(rand, rand_t):
